@@ -119,6 +119,11 @@ impl<'a> Gen<'a> {
     }
 
     fn printable(&mut self) -> Val {
+        if self.rng.chance(1, 60) {
+            // a long line of multi-byte text: larger than std's 1 KiB line buffer
+            let t = self.token();
+            return Val::Str(format!("{t} {}", "żółw✓".repeat(150 + self.rng.usize_below(200))));
+        }
         match self.rng.below(12) {
             0 => Val::Int(self.small_int()),
             1 => Val::Null,
